@@ -69,7 +69,12 @@ static void smart(const IV & r, const IV & p, const IV & y, const IV & T, int ct
   double D = (double)(r[2] * p[2] * y[2]);
   SmartRotation3D sr;
   if (ctor == 0) {sr = SmartRotation3D(rad(r), rad(p), rad(y));} else if (ctor == 1) {sr.init(Eigen::Vector3d(rad(r), rad(p), rad(y)));}
-  else {sr.init(0.3, -0.2, 1.1); sr.init(rad(r), rad(p), rad(y));}                     // re-initialised object
+  else {
+    // a re-initialised object whose derivatives were already read once
+    sr.init(0.3, -0.2, 1.1);
+    volatile double sink = sr.dRdAngleAroundXAxis()(1, 1) + sr.dRTdAngles(Eigen::Vector3d(1, 2, 3))(0, 0); (void)sink;
+    sr.init(rad(r), rad(p), rad(y));
+  }
   bool ok = true;
   Eigen::Vector3d Tv((double)T[0], (double)T[1], (double)T[2]);
   Eigen::Matrix3d dRT = sr.dRTdAngles(Tv);
@@ -160,7 +165,12 @@ static void smartgen(vh::Rng & r, vh::Out & out)
   auto units = [](double v) {double x = std::fabs(v) * 1e12; return x < 2e9 ? (long long)std::llround(x) : 2000000000LL;};
   double a = u() * 3.1, b = u() * (M_PI / 2 - 0.05), c = u() * 3.1;
   if (r.coin(1, 6)) {a = 0;} if (r.coin(1, 6)) {b = 0;} if (r.coin(1, 6)) {c = 0;}
-  SmartRotation3D sr(a, b, c);
+  // one long-lived object re-initialised for every sample (its derivatives were read by the previous sample), or a fresh one
+  static SmartRotation3D reused;
+  SmartRotation3D fresh;
+  const bool useFresh = r.coin(1, 3);
+  if (useFresh) {fresh = SmartRotation3D(a, b, c);} else if (r.coin()) {reused.init(a, b, c);} else {reused.init(Eigen::Vector3d(a, b, c));}
+  SmartRotation3D & sr = useFresh ? fresh : reused;
   auto Rx = [](double t) {Eigen::Matrix3d m; m << 1, 0, 0, 0, std::cos(t), -std::sin(t), 0, std::sin(t), std::cos(t); return m;};
   auto Ry = [](double t) {Eigen::Matrix3d m; m << std::cos(t), 0, std::sin(t), 0, 1, 0, -std::sin(t), 0, std::cos(t); return m;};
   auto Rz = [](double t) {Eigen::Matrix3d m; m << std::cos(t), -std::sin(t), 0, std::sin(t), std::cos(t), 0, 0, 0, 1; return m;};
